@@ -51,7 +51,8 @@ def gen_hint(rng, nslots, depth=2):
         if r2 < 0.75:
             return {'k': 'cls', 'n': rng.choice(['int', 'str', 'float', 'bool'])}
         if r2 < 0.85:
-            return {'k': 'lit', 'v': [rng.choice([1, True, 0, False, 'a'])]}
+            # (1 / True and 0 / False are equal with equal hashes; -1 / -2 and 0 / 2**61-1 are *unequal* with equal hashes)
+            return {'k': 'lit', 'v': [rng.choice([1, True, 0, False, 'a', -1, -2, 2305843009213693951])]}
         if r2 < 0.92:
             return {'k': 'none'}
         return {'k': 'fwd', 'n': rng.choice(['Later', 'Later2'])}
@@ -172,7 +173,8 @@ def gen_obj(rng, nslots, depth=2):
         if r2 < 0.55 and nslots:
             return {'o': 'slotcls', 's': rng.randrange(nslots)}
         return rng.choice([{'o': 'int', 'v': 1}, {'o': 'int', 'v': 0}, {'o': 'bool', 'v': True}, {'o': 'str', 'v': 'a'},
-                           {'o': 'none'}, {'o': 'float', 'v': 1.5}])
+                           {'o': 'none'}, {'o': 'float', 'v': 1.5}, {'o': 'int', 'v': -1}, {'o': 'int', 'v': -2},
+                           {'o': 'int', 'v': 2305843009213693951}])
     # no set objects: their iteration order follows instance addresses, so *which* item a check samples
     # would legitimately differ between two executions
     k = rng.choice(['list', 'tuple', 'dict', 'list'])
@@ -419,6 +421,28 @@ def generate(rng, run, tier):
         else:
             hist.append({'op': 'mkhint', 'h': nh, 'dsl': gen_hint(rng, nslots)})
             nh += 1
+    if rng.random() < 0.06:
+        # two hints that differ only in a Literal member, the two members unequal but with equal hashes: whatever is keyed by a
+        # hash alone confuses them
+        a, b = rng.choice([(-1, -2), (-2, -1), (0, 2305843009213693951), (2305843009213693951, 0)])
+        wrap = rng.choice(['bare', 'list', 'dict', 'tuple', 'opt', 'vtuple'])
+
+        def mk(v):
+            lit = {'k': 'lit', 'v': [v]}
+            return {'bare': lit, 'list': {'k': 'list', 'a': [lit]}, 'dict': {'k': 'dict', 'a': [{'k': 'cls', 'n': 'str'}, lit]},
+                    'tuple': {'k': 'tuple', 'a': [{'k': 'cls', 'n': 'str'}, lit]}, 'opt': {'k': 'opt', 'a': [lit]},
+                    'vtuple': {'k': 'vtuple', 'a': [lit]}}[wrap]
+
+        def ob(v):
+            o = {'o': 'int', 'v': v}
+            return {'bare': o, 'list': {'o': 'list', 'i': [o]}, 'dict': {'o': 'dict', 'i': [[{'o': 'str', 'v': 'k0'}, o]]},
+                    'tuple': {'o': 'tuple', 'i': [{'o': 'str', 'v': 's'}, o]}, 'opt': o, 'vtuple': {'o': 'tuple', 'i': [o]}}[wrap]
+        hist.append({'op': 'mkhint', 'h': nh, 'dsl': mk(a)})
+        hist.append({'op': 'mkhint', 'h': nh + 1, 'dsl': mk(b)})
+        for hh in (nh, nh + 1, nh):
+            for v in rng.sample([a, b], 2):
+                hist.append({'op': 'query', 'q': rng.choice(['is_bearable', 'is_bearable', 'die', 'decor_call']), 'h': hh, 'x': ob(v), 'draw': 0})
+        nh += 2
     if rng.random() < 0.12:
         # door functions with *string* hints resolved against the user module, the name bound first to one thing (an
         # ignorable alias more often than not) and then to another
